@@ -360,7 +360,7 @@ func (u *Unit) modularCall(fr *Frame, st *State, fn *ssa.Function, fc *FuncContr
 	}
 	// locks the callee may take must not be held (self-deadlock) and must respect the order
 	for _, lk := range sortedKeys(u.eng.mayAcquire(fn)) {
-		u.oblige("lock.no_reentry("+lk+")", []string{"C09", "C11", "C13", "C03", "C06"}, site, st.pc, Eq(u.nheld(st, lk), TZero), where, "callee may acquire "+lk)
+		u.oblige("lock.no_reentry("+lk+")", []string{"C09", "C11", "C13", "C03", "C06", "C04", "C08", "C12"}, site, st.pc, Eq(u.nheld(st, lk), TZero), where, "callee may acquire "+lk)
 		u.lockOrder(st, lk, site, where)
 	}
 	pre := st.clone()
@@ -405,7 +405,7 @@ func (u *Unit) lockOrder(st *State, lk, site, where string) {
 	for _, o := range u.eng.cs.LockOrder {
 		if o[0] == lk {
 			// lk must be taken before o[1]: holding o[1] now is an inversion
-			u.oblige("lock.order("+o[1]+"->"+lk+")", []string{"C09", "C11", "C13", "C03", "C06"}, site, st.pc, Eq(u.nheld(st, o[1]), TZero), where, "declared order "+o[0]+" < "+o[1])
+			u.oblige("lock.order("+o[1]+"->"+lk+")", []string{"C09", "C11", "C13", "C03", "C06", "C04", "C08", "C12"}, site, st.pc, Eq(u.nheld(st, o[1]), TZero), where, "declared order "+o[0]+" < "+o[1])
 		}
 	}
 }
